@@ -34,7 +34,13 @@ enum Op {
     WaitDeliver(c_int), // W<sig>  wait until the library is the signal's disposition, then deliver
     CloneDrop,        // h   clone the handle and drop the clone
     IsClosed,         // q
+    ShareBatch,       // y   consumer: take a batch (pending()) and hand it to whoever scans it (Y)
+    ScanShared,       // Y   other thread: scan the batch the consumer handed over
 }
+
+/// A `Pending` batch is detached from the instance and `Send`: it may be scanned on another thread
+/// while the instance already hands out the next one.
+static SHARED_BATCH: Mutex<Option<Box<dyn Iterator<Item = c_int> + Send>>> = Mutex::new(None);
 
 fn parse(s: &str) -> Vec<Op> {
     s.split(',')
@@ -55,6 +61,8 @@ fn parse(s: &str) -> Vec<Op> {
                 "W" => Op::WaitDeliver(n as c_int),
                 "h" => Op::CloneDrop,
                 "q" => Op::IsClosed,
+                "y" => Op::ShareBatch,
+                "Y" => Op::ScanShared,
                 _ => panic!("bad op {}", tok),
             }
         })
@@ -207,6 +215,12 @@ fn consumer_op(obj: &mut Obj3, op: &Op) {
                 }
             }
         }
+        (Obj3::Plain(s), Op::ShareBatch) => {
+            sched::note("call_pending", 0, 0);
+            let b = s.pending();
+            *SHARED_BATCH.lock().unwrap() = Some(Box::new(b));
+            sched::note("ret_pending", 0, 0);
+        }
         _ => sched::note("bad_consumer_op", 0, 0),
     }
 }
@@ -236,6 +250,14 @@ fn handle_op(h: &Handle, op: &Op) {
             let c = h.clone();
             drop(c);
         }
+        Op::ScanShared => {
+            let b = SHARED_BATCH.lock().unwrap().take();
+            if let Some(b) = b {
+                for sig in b {
+                    note_yield(sig as i64, 0);
+                }
+            }
+        }
         Op::IsClosed => {
             let r = h.is_closed();
             sched::note("is_closed", r as u64, 0);
@@ -261,6 +283,7 @@ struct Built {
 }
 
 fn build(scn: &Scn) -> Built {
+    *SHARED_BATCH.lock().unwrap() = None;
     unsafe { verif::reset() };
     for s in [10, 12, 14, 15, 17, 23, 28] {
         if ![9, 19].contains(&s) {
